@@ -17,6 +17,9 @@ static mut IMG_LEN: usize = 0;
 static mut VERDICT: u8 = 0;
 static mut BIG: bool = false;
 static mut BIG_TAIL: [u8; 64] = [0; 64];
+/// large images: index of the one data record the reader looks at (symbolic, so the verdict
+/// covers every index), usize::MAX = look at all records
+static mut BIG_PICK: usize = usize::MAX;
 
 pub const V_OK: u8 = 1;
 pub const V_DATA_AFTER_EOF: u8 = 2;
@@ -90,7 +93,55 @@ fn read_records(records: &[ihex::Record]) -> u8 {
 /// Record-level reader for large images whose contents are all zero: data records must tile
 /// 0..len in increasing address order (no bitmap is possible at this size; an implementation
 /// that emits records out of order would be reported by this harness — stated in DESIGN.md).
+/// Large-image reader that looks at ONE symbolically chosen record instead of walking all of
+/// them (walking 258 heap-allocated records took > 15 min of symbolic execution): the layout
+/// expected is the writer's own - optional address record first, then one data record per 16-byte
+/// chunk in increasing order, then end-of-file.  An implementation with another (equally valid)
+/// record layout would be reported by this harness; stated in DESIGN.md.
+fn read_one_record(records: &[ihex::Record]) -> u8 {
+    let len = unsafe { IMG_LEN };
+    let pick = unsafe { BIG_PICK };
+    let chunks = (len + 15) / 16;
+    let n = records.len();
+    // leading address record(s)
+    let lead = if n > 0 && matches!(records[0], ihex::Record::ExtendedSegmentAddress(0) | ihex::Record::ExtendedLinearAddress(0)) { 1 } else { 0 };
+    if n != lead + chunks + 1 {
+        return V_MISSING;
+    }
+    if !matches!(records[n - 1], ihex::Record::EndOfFile) {
+        return V_NO_EOF;
+    }
+    if pick >= chunks {
+        return V_OK;
+    }
+    match &records[lead + pick] {
+        ihex::Record::Data { offset, value } => {
+            if *offset as usize != 16 * pick {
+                return V_OUT_OF_ORDER;
+            }
+            let want_len = if pick + 1 == chunks { len - 16 * pick } else { 16 };
+            if value.len() != want_len {
+                return V_OUTSIDE;
+            }
+            let mut j = 0;
+            while j < value.len() {
+                let a = 16 * pick + j;
+                let want = if a + 24 >= len { unsafe { BIG_TAIL[a + 24 - len] } } else { 0 };
+                if value[j] != want {
+                    return V_WRONG_BYTE;
+                }
+                j += 1;
+            }
+            V_OK
+        }
+        _ => V_OUT_OF_ORDER,
+    }
+}
+
 fn read_records_big(records: &[ihex::Record]) -> u8 {
+    if unsafe { BIG_PICK } != usize::MAX {
+        return read_one_record(records);
+    }
     let len = unsafe { IMG_LEN } as u64;
     let mut next: u64 = 0;
     let mut base: u32 = 0;
@@ -290,11 +341,14 @@ pub fn hex_big<S: Src>(s: &mut S, len: usize) {
         img[len - 24 + i] = tail[i];
         i += 1;
     }
+    let pick = s.u16() as usize;
+    s.assume(pick < (len + 15) / 16);
     unsafe {
         IMG_LEN = len;
         VERDICT = 0;
         BIG = true;
         BIG_TAIL = tail;
+        BIG_PICK = pick;
     }
     let r = avra_lib::writer::verif_generate_hex_from_segment(&img[..]);
     cov!(r.is_ok(), "!writer returned a file");
